@@ -1038,7 +1038,7 @@ func Spec() *core.Spec {
 			"every request and response carries a unique id (Unique Batch Item ID) so each connection's received sequence is checked against its sent sequence (exactly once, in order, never more; complete when the client drained); " +
 			"the binary hostile corpus of C02 (length/type ladders over every item of valid requests, random mutations) fed one input per connection; a canary connection is pinged throughout; goroutine census at quiescence; Shutdown at the end; directed schedules through the verif hooks. The worker process is the crash monitor. a TLS listener with peers stalling in, garbling or abandoning the handshake while well-behaved TLS clients must be served and Shutdown must return; distinct = distinct per-connection action sequences",
 		Assumptions: []string{"a connection closed abruptly by the client may end short, never long or out of order", "goroutines gone = none with a library frame (other than the accept loop) within 10 s of the last connection ending"},
-		Required: []string{"discover_handler_panics", "wrong_count_requests", "vendor_refusals", "shutdowns_with_blocked_writers", "builtin_discover_sublists", "pipelined_undecodable_connections", "undecodable_requests.kind4", "histories", "tls_histories", "tls_good_clients", "tls_hostile_peers.kind0", "tls_hostile_peers.kind1", "tls_shutdowns_with_stalled_peers", "connections", "responses_received", "graceful_connections_fully_answered", "canary_pings", "census_checks", "undecodable_requests.kind0", "undecodable_requests.kind1",
+		Required: []string{"discover_handler_panics", "wrong_count_requests", "vendor_refusals", "directed_requests.kind0", "directed_requests.kind7", "directed_requests.kind8", "shutdowns_with_blocked_writers", "builtin_discover_sublists", "pipelined_undecodable_connections", "undecodable_requests.kind4", "histories", "tls_histories", "tls_good_clients", "tls_hostile_peers.kind0", "tls_hostile_peers.kind1", "tls_shutdowns_with_stalled_peers", "connections", "responses_received", "graceful_connections_fully_answered", "canary_pings", "census_checks", "undecodable_requests.kind0", "undecodable_requests.kind1",
 			"directed.client-gone-while-send-holds-tx", "hostile_inputs_framed", "hostile_rounds"},
 		Shards: func(string) int { return 8 },
 		Families: []core.Family{
@@ -1072,6 +1072,7 @@ func Spec() *core.Spec {
 				}
 				return 6
 			}, Run: nonReadingShutdownCase, Timeout: 120 * time.Second},
+			{Name: "directed-requests", Exhaustive: true, N: func(string) int { return 24 }, Run: directedRequestsCase, Timeout: 60 * time.Second},
 			{Name: "vendor-refusal", Exhaustive: true, N: func(string) int { return 6 }, Run: vendorRefusalCase, Timeout: 60 * time.Second},
 			{Name: "wrong-count", Exhaustive: true, N: func(string) int { return len(countShapes) }, Run: wrongCountCase, Timeout: 60 * time.Second},
 			{Name: "builtin-discover", N: func(tier string) int {
